@@ -19,7 +19,7 @@ CHECKS = {
  "C07": ("other", "5.7", TECH_K,
    "Partial. Decimal cut-offs imply zero/infinity for both moderate stages. Subnormal rounding results are NOT decided."),
  "C11": ("other", "5.11", TECH_K + "; abstract interpretation of the monomorphic MIR of the stage (carry-test rule, early-out post-conditions)",
-   "Partial. Tie-window bounds, table coverage and table contents; every ordering test between a wrapping 64-bit sum and one of its addends in the Eisel-Lemire product is equivalent to the carry; every exit of the stage is either declined with a normalised significand or definite with fields that pack without touching the exponent field (sentinel protocol); every early zero/infinity exit is implied by the exponent bound of its path; the round-to-even window as the code applies it (effective inclusive bounds of the comparisons on q) covers the exponents with exact ties; the normalisation shift is never dropped while Bellerophon's error term is live (this rule found the repaired error-budget defect); the wrapping_add/wrapping_sub of error_is_accurate provably do not wrap (found the second repaired defect); sibling agreement between error_is_accurate and round: for every biased exponent of the subnormal range (singleton classes) and all larger exponents (one class) the width of the examined window equals the width round() shifts by. That a definite answer is correctly rounded is NOT decided."),
+   "Partial. Tie-window bounds, table coverage and table contents; every ordering test between a wrapping 64-bit sum and one of its addends in the Eisel-Lemire product is equivalent to the carry; every exit of the stage is either declined with a normalised significand or definite with fields that pack without touching the exponent field (sentinel protocol); every early zero/infinity exit is implied by the exponent bound of its path; the round-to-even window as the code applies it (effective inclusive bounds of the comparisons on q) covers the exponents with exact ties; the normalisation shift is never dropped while Bellerophon's error term is live (this rule found the repaired error-budget defect); the wrapping_add/wrapping_sub of error_is_accurate provably do not wrap (found the second repaired defect); sibling agreement between error_is_accurate and round: for every biased exponent of the subnormal range (singleton classes) and all larger exponents (one class) the width of the examined window equals the width round() shifts by; the dropped-digits flag is honoured by both stages (w and w+1 evaluated and compared in lemire; estimate of at least one significand unit in bellerophon). That a definite answer is correctly rounded is NOT decided."),
  "C12": ("other", "5.12", TECH_E,
    "Partial. No result of a fallible library call is dropped unread (MIR def-use, all configurations); 5^135 and 5^i constants exact. Exactness of carry chains is NOT decided."),
  "C14": ("proof", "5.14", "static analysis: compiler-evaluated constants checked exhaustively against definitions (no execution of the parser); abstract interpretation for the on-demand integer powers",
@@ -48,7 +48,7 @@ CHECKS.update({
  "C19": ("other", "5.19", TECH_A + "; front-end copies extracted via rustc's pretty-printer and compiled against the library",
    "Partial. Each of the 7 copies of the shipped front-end: no panic of its own code on arbitrary bytes (loop invariants such as index <= len proven; content-dependent sites audited), the library is called on sub-slices of the input, the remainder is a sub-slice of the input, exponent saturation only when the accumulator leaves the i32 range. Grammar completeness and the value are NOT decided."),
  "C06": ("other", "5.6", TECH_A + "; exact midpoint-digit computation",
-   "Partial. MAX_DIGITS >= longest exact midpoint expansion (computed exactly), capacity formula, and the truncation typestate of the 19-digit stage: at every exit of parse_number either many_digits is set or both iterators are exhausted, and at every exit of slow::parse_mantissa either both are exhausted or the digit count has reached max_digits. Rounding of the truncated value is NOT decided."),
+   "Partial. MAX_DIGITS >= longest exact midpoint expansion (computed exactly), capacity formula, and the truncation typestate of the 19-digit stage: at every exit of parse_number either many_digits is set or both iterators are exhausted, and at every exit of slow::parse_mantissa either both are exhausted or the digit count has reached max_digits; the flag is honoured by the middle stage (lemire: a truncated significand is accepted only after w and w+1 were both evaluated and compared; bellerophon: the error estimate passed to error_is_accurate is at least one significand unit). Rounding of the truncated value is NOT decided."),
  "C18": ("other", "5.18", TECH_A + "; must-pass-through rule on the monomorphic CFG",
    "Partial. (1) every path through round / round_nearest_tie_even consults the rounding callback; (2) post-condition of round for every significand with its top bit set and every exponent whose subnormal shift is <= 64: 0 <= exp <= INFINITE_POWER, mant <= HIDDEN_BIT_MASK, exp = INFINITE_POWER => mant = 0 (fields pack without overlap, never NaN), all shifts and mask widths in range; (3) constants; (4) bit-mask helpers for all widths 0..=64 by interval inclusion on the classes {0},{1},[2,62],{63},{64}; (5) exact results on the boundary classes of round (shift-64 subnormals, largest subnormal -> smallest normal, carry into the next binade, overflow to infinity) for the generic nearest-even and the truncating instances. The nearest-even decision on the remaining inputs is NOT decided."),
  "C12": ("other", "5.12", TECH_E + "; " + TECH_A,
